@@ -24,8 +24,13 @@ NEG_EDIT_ORDER = ("ELSE IF n = 3 THEN 249 * P(8) + (v - 2288) * P(6)", "ELSE IF 
 NEG_EDIT_RT = ("ELSE IF n = 3 THEN ((k - 249 * P(8)) \\div P(6)) + 2288", "ELSE IF n = 3 THEN ((k - 249 * P(8)) \\div P(6)) + 2287", "RoundTripInv")
 
 
+# header-only families the scalar driver instantiates
+HDRS = ["varintSplit.h", "varintSplitFull.h", "varintSplitFull16.h", "varintSplitFullNoZero.h", "varintDelta.h"]
+
+
 def tiers_for(tier):
-    return ["pinned", "debug"] if tier == "quick" else ["pinned", "debug", "san"]
+    # + "simd" exactly when a scalar source tests an instruction-set macro the default build leaves undefined
+    return (["pinned", "debug"] if tier == "quick" else ["pinned", "debug", "san"]) + vlib.isa_tier(LIB + HDRS)
 
 
 def gen_values(work, dense):
